@@ -89,6 +89,9 @@ def run_verus_unit(pid, unit, tier, evidence, problems):
         from_vspec = bool(origin) and str(origin[0]).startswith('vspec')
         msg = f['message']
         internal = bool(re.search(r'invariant|assertion failed|assert|pre-?condition of closure', msg, re.I)) or (('precondition' in msg or 'requires' in msg) and from_vspec)
+        # an inserted assertion tagged `// contract` restates the function's postcondition (its witness): failing it is contract-level
+        if internal and '// contract' in (prim.get('line_text') or ''):
+            internal = False
         problems['failed'].append({'unit': unit, 'backend': 'verus', 'obligation': oblig, 'function': f['function'],
                                    'verifier_output': f['rendered'], 'origin': prim.get('origin'), 'internal': internal})
 
